@@ -183,6 +183,14 @@ def build_harness(pkg, timeout=900):
         shutil.copyfile(os.path.join(REPO, "go.sum"), os.path.join(hdir, "go.sum"))
     except OSError:
         pass
+    # the harness module replaces github.com/agglayer/aggkit by the tree under test (VERIF_REPO, default /repo)
+    gm = os.path.join(hdir, "go.mod")
+    with open(gm) as f:
+        txt = f.read()
+    new = re.sub(r"replace github.com/agglayer/aggkit => \S+", "replace github.com/agglayer/aggkit => " + REPO, txt)
+    if new != txt:
+        with open(gm, "w") as f:
+            f.write(new)
     exe = os.path.join(BUILD, "h_" + pkg)
     rc, out = sh(["go", "build", "-tags", "verif", "-o", exe, "./" + pkg], cwd=hdir, env=go_env(), timeout=timeout)
     return rc, out, exe
